@@ -9,8 +9,10 @@ Quick == Tier = "quick"
 MaxEntries == IF Quick THEN 2 ELSE 3
 
 Titles == { <<>>, <<84>>, <<84, 105, 116>>, <<84, 105, 116, 108>> }      \* lengths 0, 1, 3, 4
-KeyPool == { <<>>, <<75>>, <<97, 98>>, <<130, 160>> }                      \* "", "K", "ab", a two-byte character
-Keys == IF Quick THEN { <<75>>, <<97, 98>>, <<130, 160>> } ELSE KeyPool
+\* "", "K", "ab", a two-byte character, and a key of which "K" is a proper suffix behind a two-byte character
+\* (keys are label names: a writer that shares name storage between labels must count encoded bytes)
+KeyPool == { <<>>, <<75>>, <<97, 98>>, <<130, 160>>, <<130, 160, 75>> }
+Keys == IF Quick THEN { <<75>>, <<97, 98>>, <<130, 160>>, <<130, 160, 75>> } ELSE KeyPool
 
 \* Shift-JIS messages: every encoded length 0..5 (all residues modulo 4), single/double byte, trail byte 5C
 SjisMsgs ==
